@@ -3,7 +3,7 @@
 use crate::eng_codec::{ReadEngine, WriteEngine};
 use crate::eng_hpack::{self, DecEngine, EncEngine, SplitEngine};
 use crate::eng_pair::PairEngine;
-use crate::eng_raw::CatalogueServerEngine;
+use crate::eng_raw::{CatalogueServerEngine, HttpEngine};
 use crate::sim_pair::Focus;
 use crate::runner::{self, drive, finish, Ctx, Engine, Report, RunStats, Tier};
 use serde_json::{json, Value};
@@ -122,6 +122,18 @@ pub fn run_check(id: &str, tier: Tier) -> i32 {
             parts.push(run_engine(&CatalogueServerEngine, &ctx, scale(tier, 12_000, 400_000)));
             assumptions.push("the catalogue rows (harness/src/eng_raw.rs) transcribe RFC 9113 correctly; only the class of reaction is demanded, never a specific code".into());
         }
+        "C13" => {
+            parts.push(run_engine(&HttpEngine { server: true }, &ctx, scale(tier, 12_000, 400_000)));
+            if parts.iter().all(|p| p.failure.is_none()) {
+                parts.push(run_engine(&HttpEngine { server: false }, &ctx, scale(tier, 12_000, 400_000)));
+            }
+            if parts.iter().all(|p| p.failure.is_none()) {
+                // send side: programs that submit connection-specific / TE fields; every emitted header section is
+                // run through the same predicate
+                parts.push(run_engine(&PairEngine { focus: Focus::Resets }, &ctx, scale(tier, 5_000, 200_000)));
+            }
+            assumptions.push("refmodel::http transcribes RFC 9113 §8 / RFC 8441 §4 for the classes C13 names; field value syntax is out of scope".into());
+        }
         "C12" => {
             parts.push(run_engine(&WriteEngine, &ctx, scale(tier, 40_000, 1_000_000)));
             if parts.iter().all(|p| p.failure.is_none()) {
@@ -166,6 +178,8 @@ pub fn replay(path: &str) -> i32 {
         "hpack-enc-big" => runner::replay_case(&EncEngine { big: true }, case),
         "codec-write" => runner::replay_case(&WriteEngine, case),
         "raw-catalogue-server" => runner::replay_case(&CatalogueServerEngine, case),
+        "raw-http-server" => runner::replay_case(&HttpEngine { server: true }, case),
+        "raw-http-client" => runner::replay_case(&HttpEngine { server: false }, case),
         "pair-coop" => runner::replay_case(&PairEngine { focus: Focus::Coop }, case),
         "pair-resets" => runner::replay_case(&PairEngine { focus: Focus::Resets }, case),
         "pair-faults" => runner::replay_case(&PairEngine { focus: Focus::Faults }, case),
